@@ -46,8 +46,8 @@ Qed.
 Lemma no_mut_draw_if_ids l : no_mut (draw_if_ids l).
 Proof. induction l; simpl; nm. apply IHl. Qed.
 
-Lemma op_add_component_nonquery fl pn name node_id spec_given nic sub_ids cat pure :
-  nonquery_atomic (op_add_component fl pn name node_id spec_given nic sub_ids cat pure).
+Lemma op_add_component_nonquery pc fl pn name node_id spec_given nic sub_ids cat pure :
+  nonquery_atomic (op_add_component pc fl pn name node_id spec_given nic sub_ids cat pure).
 Proof.
   unfold op_add_component.
   apply nonquery_bind_nm; [nm|intro]. apply nonquery_bind_nm; [nm|intro]. apply nonquery_bind_nm; [nm|intro].
@@ -57,6 +57,7 @@ Proof.
   apply nonquery_bind_nm.
   { destruct (cs_child spec); nm. apply no_mut_draw_if_ids. }
   intro drawn. apply nonquery_bind_nm; [nm|intro].
+  apply nonquery_bind_nm; [destruct pc; nm|intro].
   apply nonquery_of_only.
   apply only_query_bind; [apply only_query_add_node|intro].
   apply only_query_bind; [apply only_query_add_edge|intro].
@@ -68,8 +69,8 @@ Proof.
   apply only_query_bind; [apply only_query_add_node|intro]. apply only_query_add_edge.
 Qed.
 
-Lemma add_component_atomic_nonquery fl pn name node_id spec_given nic sub_ids cat pure s s' e :
-  op_add_component fl pn name node_id spec_given nic sub_ids cat pure s = (s', Err e) ->
+Lemma add_component_atomic_nonquery pc fl pn name node_id spec_given nic sub_ids cat pure s s' e :
+  op_add_component pc fl pn name node_id spec_given nic sub_ids cat pure s = (s', Err e) ->
   e <> EQuery -> sg s' = sg s.
 Proof. apply op_add_component_nonquery. Qed.
 
@@ -77,16 +78,16 @@ Proof. apply op_add_component_nonquery. Qed.
 From Coq Require Import String.
 From FIM Require Import Proofs.T9Refuted.
 Lemma ex_component_unknown_model :
-  let r := op_add_component Experiment 1 (S "x1") None true true false (Err ECatalog) None (mkSt g_two_nodes supply) in
+  let r := op_add_component false Experiment 1 (S "x1") None true true false (Err ECatalog) None (mkSt g_two_nodes supply) in
   snd r = Err ECatalog /\ sg (fst r) = g_two_nodes.
 Proof. vm_compute. auto. Qed.
 Lemma ex_component_dup_name :
-  let r := op_add_component Experiment 1 (S "nic1") None true false false (Ok (mkCompSpec tNIC None)) None
+  let r := op_add_component false Experiment 1 (S "nic1") None true false false (Ok (mkCompSpec tNIC None)) None
                             (mkSt g_two_nodes supply) in
   snd r = Err ETopology /\ sg (fst r) = g_two_nodes.
 Proof. vm_compute. auto. Qed.
 Lemma ex_component_ok :
-  let r := op_add_component Experiment 1 (S "nic2") None true false false
+  let r := op_add_component false Experiment 1 (S "nic2") None true false false
              (Ok (mkCompSpec tNIC (Some (mkChildNs (S "n1-nic2-l2ovs") tOVS None [mkChildIf (S "nic2-p1") tSharedPort None]))))
              None (mkSt g_two_nodes supply) in
   snd r = Ok 50 /\ List.length (gnodes (sg (fst r))) = 12%nat.
